@@ -82,15 +82,19 @@ namespace igris
             return ring_empty(&r);
         }
 
+        // Every slot of the buffer holds an object at any time: unbounded_array
+        // constructs all of them and destroys all of them. Elements are
+        // therefore replaced by assignment, never constructed or destroyed
+        // in place.
         void push(const T &obj)
         {
-            new (buffer.data() + r.head) T(obj);
+            buffer[r.head] = obj;
             ring_move_head_one(&r);
         }
 
         template <typename... Args> void emplace(Args &&... args)
         {
-            new (buffer.data() + r.head) T(std::forward<Args>(args)...);
+            buffer[r.head] = T(std::forward<Args>(args)...);
             ring_move_head_one(&r);
         }
 
@@ -105,7 +109,7 @@ namespace igris
         void pop()
         {
             int idx = r.tail;
-            buffer[idx].~T();
+            buffer[idx] = T();
             ring_move_tail_one(&r);
         }
 
